@@ -91,7 +91,7 @@ type Query {
 
 type Mutation {
   inc(by: Int = 1): Int
-  set(v: String): A
+  set(v: String, s: Int): A
   must: Int!
   other: B
   many: [A!]
